@@ -121,6 +121,68 @@ example : dominates [[2, -1], [-1, 2], [1, 0]] [2, 1] [1, -1] = true ∧
     dominates [[1, 1]] [1, -1] [0, 0] = true ∧ dominates [[1, 1]] [0, 0] [1, -1] = true := by
   decide +kernel
 
+/-- **The cone is a convex cone** (what makes the induced relation an order compatible with the vector
+structure): it contains the origin, is closed under addition of vectors of one length and under
+multiplication by non-negative numbers. -/
+theorem inCone_convex_cone (W : Mat) :
+    (∀ n, inCone W (List.replicate n 0) = true) ∧
+    (∀ x y : Vec, x.length = y.length → inCone W x = true → inCone W y = true →
+        inCone W (vadd x y) = true) ∧
+    (∀ (c : Rat) (x : Vec), 0 ≤ c → inCone W x = true → inCone W (smul c x) = true) := by
+  refine ⟨?_, ?_, ?_⟩
+  · intro n
+    rw [inCone_iff]
+    intro w _
+    rw [gdot_replicate_zero]
+  · intro x y hlen hx hy
+    rw [inCone_iff] at hx hy ⊢
+    intro w hw
+    show 0 ≤ gdot w (List.zipWith (· + ·) x y)
+    rw [gdot_add w x y hlen]
+    exact add_nonneg (hx w hw) (hy w hw)
+  · intro c x hc hx
+    rw [inCone_iff] at hx ⊢
+    intro w hw
+    show 0 ≤ gdot w (x.map (c * ·))
+    rw [gdot_smul]
+    exact mul_nonneg hc (hx w hw)
+
+/-- **Dominations add up**: if `a` dominates `b` and `c` dominates `d` (all of one length) then `a + c`
+dominates `b + d` — the order is compatible with addition on both sides at once, not only with
+translating both arguments by the same vector. -/
+theorem dominates_add (W : Mat) (a b c d : Vec) (hab : a.length = b.length) (hcd : c.length = d.length)
+    (hac : a.length = c.length) (h₁ : dominates W a b = true) (h₂ : dominates W c d = true) :
+    dominates W (vadd a c) (vadd b d) = true := by
+  rw [dominates_iff] at h₁ h₂ ⊢
+  intro w hw
+  have e : List.zipWith (· - ·) (vadd a c) (vadd b d) =
+      List.zipWith (· + ·) (List.zipWith (· - ·) a b) (List.zipWith (· - ·) c d) := by
+    clear h₁ h₂ hw
+    induction a generalizing b c d with
+    | nil => simp [vadd]
+    | cons x a ih =>
+      cases b with
+      | nil => simp at hab
+      | cons y b =>
+        cases c with
+        | nil => simp at hac
+        | cons z c =>
+          cases d with
+          | nil => simp at hcd
+          | cons u d =>
+            simp only [List.length_cons, Nat.add_right_cancel_iff] at hab hcd hac
+            have := ih b c d hab hcd hac
+            simp only [vadd, List.zipWith_cons_cons, List.cons.injEq] at this ⊢
+            exact ⟨by ring, this⟩
+  rw [e, gdot_add _ _ _ (by simp only [List.length_zipWith]; omega)]
+  exact add_nonneg (h₁ w hw) (h₂ w hw)
+
+/-- non-vacuity for the two laws above on a 3-facet cone -/
+example : inCone [[2, -1], [-1, 2], [1, 0]] [1, 1] = true ∧ inCone [[2, -1], [-1, 2], [1, 0]] [2, 3] = true ∧
+    inCone [[2, -1], [-1, 2], [1, 0]] (vadd [1, 1] [2, 3]) = true ∧
+    dominates [[2, -1], [-1, 2], [1, 0]] (vadd [2, 1] [1, 1]) (vadd [1, 0] [0, 0]) = true := by
+  decide +kernel
+
 /-! ## B. The 2-D θ-cone (`get_2d_w`) -/
 
 /-- the terms' dot product at `ℝ` is the generic one used by `MemCone` -/
